@@ -1,6 +1,12 @@
 HOOK_COMMITS = []
 NOT_APPLICABLE = {}
 CHECKS = {
+ "C12": {
+  "level": "exploration",
+  "technique": "runtime monitor: reflective class x target x option sweep; record-by-record differential copy vs source with child-uid map, source ApiSnapshot + file digests before/after, behavioural aliasing probes (in-place and setter edits of the copy, lazy first read of the source)",
+  "text": "Every exported concrete object and group class (populated with data of several kinds/associations, property groups whose member order differs from child order, metadata; sources fresh or re-loaded from file) is copied to the same parent, another group and another workspace with copy_children/clear_cache options; nested group subtrees and drillhole groups (both format versions, fast cross-workspace and slow same-workspace paths) likewise. The copy's public record must equal the source's modulo uid/parent, children one-to-one, property groups listing the copied children in source order with fresh uids in the same workspace; the source's public view and file-node digests must be unchanged; in-place edits of arrays returned by the copy and setter edits / removals on the copy must not change the source, live, lazily read, or after re-open. Held on the counted copies only.",
+  "note": "Survey link metadata is judged under C20, masks under C07/C13. In-place probes are limited to vertices/values (the arrays users edit).",
+ },
  "C11": {
   "level": "fault_enumeration",
   "technique": "runtime monitor with crash-point enumeration: every abort point k of every generated history x close variants; HDF5 open-object accounting, layout validator, live-vs-fresh differential, post-close getter sweep against an open twin",
